@@ -69,7 +69,7 @@ func genWithRefusals(t *rapid.T) vh.ShimCase {
 			ep = append(ep, op)
 		}
 		if rapid.Bool().Draw(t, "episodeWrong") {
-			ep = append(ep, vh.Op{Kind: "unlock", Cert: -1, Pass: "episodE"})
+			ep = append(ep, vh.Op{Kind: "unlock", Cert: -1, Pass: rapid.SampledFrom([]string{"episodE", "episode\n", "episode\r\n", "episode ", " episode", "episod", "episode\x00", "episodee", ""}).Draw(t, "episodeWrongPass")})
 		}
 		if rapid.IntRange(0, 5).Draw(t, "episodeLostLock") == 0 {
 			// the underlying agent loses its lock behind the shim's back; a wrong passphrase follows
